@@ -297,4 +297,22 @@ PROPS = {
                              "handles_reissued", "script_assignments", "script_self_assignments", "script_releases", "deletion:pessimistic", "deletion:optimistic", "deletion:never"],
         "assumptions": ASSUME_COMMON + ["histories contain no call that raises an error (C06 excludes error paths)"],
     },
+    "C13": {
+        "rule": ("each case: random domain of 2-5 variables with non-uniform sizes, an MT set/relation forest (bool/int/real, every "
+                 "reduction rule) or an EV+ set forest with random storage/memory/deletion policy, one of the 8 scheduling heuristics, "
+                 "VAR or (relations) LEVEL swaps; 1-6 held edges that share sub-graphs, results of earlier operations held too (warm "
+                 "compute tables); a sibling forest over the same domain with its own held edges; 1-2 reorderings to uniformly random "
+                 "target orders (or back to the identity); afterwards: the forest's level->variable map equals the target, every "
+                 "held edge evaluates at every assignment of the renamed variables to its old table, M1-M3 audit passes, rebuilding "
+                 "a function from its table gives the identical edge, a further operation gives the model result, and the sibling's "
+                 "order, edges (==), node counts and tables are unchanged.  Combinations the library rejects with NOT_IMPLEMENTED "
+                 "count as unsupported.  non-trivial = the order actually changed with at least one held edge; distinct = hash(config, shape, tables, orders)"),
+        "passes": {
+            "quick": [P("main", "asan", 1600)],
+            "thorough": [P("main", "asan", 40000)],
+        },
+        "require_counters": ["reorderings", "heuristic:LOWEST_INVERSION", "heuristic:HIGHEST_INVERSION", "heuristic:SINK_DOWN", "heuristic:BRING_UP",
+                             "heuristic:LOWEST_COST", "heuristic:LOWEST_MEMORY", "heuristic:RANDOM", "heuristic:LARC", "swap:VAR", "cases_with_warm_caches"],
+        "assumptions": ASSUME_COMMON,
+    },
 }
